@@ -195,18 +195,20 @@ def client_overrides():
     from idpyoidc.server.oauth2.authorization import validate_resource_indicators_policy as arp
     from idpyoidc.server.oauth2.token_revocation import validate_token_revocation_policy
     return {
-        "client_1": {"token_usage_rules": {
+        "client_1": {"backchannel_logout_uri": "https://client_1.example.com/bc_logout", "token_usage_rules": {
             "authorization_code": {"supports_minting": ["access_token", "refresh_token", "id_token"], "expires_in": 120},
             "refresh_token": {"supports_minting": ["access_token", "refresh_token"], "expires_in": 1800},
             "access_token": {}}},
-        "client_2": {"add_claims": {"always": {"userinfo": ["email"], "id_token": ["email", "phone_number"], "introspection": ["nickname"]},
+        "client_2": {"frontchannel_logout_uri": "https://client_2.example.com/fc_logout", "add_claims": {"always": {"userinfo": ["email"], "id_token": ["email", "phone_number"], "introspection": ["nickname"]},
                                     "by_scope": {"id_token": True, "userinfo": True}},
                      "token_usage_rules": {"authorization_code": {"supports_minting": ["access_token", "id_token"]}},
                      "grant_types_supported": ["authorization_code", "refresh_token"]},
         "client_3": {"token_revocation": {"token_types_supported": ["access_token"],
                                           "policy": {"": {"function": validate_token_revocation_policy}}},
                      "userinfo": {"policy": {"function": c3_userinfo_policy, "kwargs": {"tag": "c3"}}}},
-        "client_4": {"resource_indicators": {"authorization_code": {"policy": {"function": arp, "kwargs": {
+        # logout URIs: back-channel (no id_token_signed_response_alg registered), front-channel, both
+        "client_4": {"backchannel_logout_uri": "https://client_4.example.com/bc_logout", "frontchannel_logout_uri": "https://client_4.example.com/fc_logout",
+                     "resource_indicators": {"authorization_code": {"policy": {"function": arp, "kwargs": {
             "resource_servers_per_client": {"client_4": ["client_1", "client_2"]}}}}}},
     }
 
@@ -383,6 +385,32 @@ def make_exec(server, clock, oidc):
             d = r[0].to_dict() if hasattr(r[0], "to_dict") else dict(r[0])
             return ["ok", {k: v for k, v in sorted(d.items()) if k not in srv_c13.VOLATILE}]
 
+        def op_logout(self, ref, alla):
+            """the verified logout of the end-session endpoint (one client / all clients of the user): back-channel
+            logout tokens are built and posted (the HTTP client is a recording stub), front-channel iframes built"""
+            class _Resp:
+                status_code = 200
+                text = ""
+            posts = []
+
+            def httpc(method, url, **kw):
+                posts.append((method, url, sorted(kw.get("data", "").split("=", 1)[:1])))
+                return _Resp()
+            sep = self.server.get_endpoint("session")
+            try:
+                sid = self.ctx.session_manager.get_session_id_by_token(self.tok(ref))
+            except Exception as e:
+                return ["exc", type(e).__name__]
+            saved = self.ctx.httpc
+            self.ctx.httpc = httpc
+            try:
+                flu = list(sep.do_verified_logout(sid, alla=alla))
+            except Exception as e:
+                return ["exc", type(e).__name__]
+            finally:
+                self.ctx.httpc = saved
+            return ["ok", sorted(u for _, u, _ in posts), len(flu)]
+
         def op_discovery(self):
             ep = self.server.get_endpoint("provider_config")
             res = ep.process_request()
@@ -464,6 +492,8 @@ def next_op(rng, P, oidc):
         return ("introspect", ref, c if not (c == "client_2" and oidc) else "client_1")
     if r < 0.84 and oidc:
         return (rng.choice(["userinfo", "userinfo", "userinfo_body"]), pick("access_token"))
+    if r < 0.865 and oidc:
+        return ("logout", pick(rng.choice(["access_token", "access_token", "refresh_token"])), rng.random() < 0.5)
     if r < 0.88:
         return ("tick", rng.choice([1, 30, 121, 601]))
     if r < 0.91:
@@ -491,6 +521,7 @@ def probe_flow(c, oidc):
                   ("revoke", ("rel", 1), c, "access_token"), ("userinfo", ("rel", 1))]
         else:
             f += [("revoke", ("rel", 1), "client_1", None), ("userinfo", ("rel", 1))]
+        f += [("logout", ("rel", 1), False), ("userinfo", ("rel", 1))]
     else:
         f += [("token_res", ("rel", 0), c, ["client_2"] if c == "client_1" else ["client_1"]),
               ("introspect", ("rel", 1), c), ("exchange", ("rel", 1), c, None), ("refresh", ("rel", 2), c, None, None),
